@@ -7,6 +7,9 @@ SPEC = os.path.join(VERIF, "spec")
 HARNESS = os.path.join(VERIF, "harness")
 GEN = os.path.join(VERIF, "gen")
 REPO = os.environ.get("VERIF_REPO", "/repo")
+# tools/mutsweep.py only: record digests of the observed traces into this file instead of validating them
+FINGERPRINT = os.environ.get("VERIF_FINGERPRINT")
+REPLAY_DIR = os.environ.get("VERIF_REPLAY_DIR") or os.path.join(VERIF, "replay")   # overridden by tools/mutsweep.py only
 TLA_CP = "/opt/veriftools/tla/tla2tools.jar:/opt/veriftools/tla/CommunityModules-deps.jar"
 NCPU = os.cpu_count() or 4
 
@@ -39,7 +42,7 @@ class Run:
         self.samples = []
         self.harness_bin = None
         if not keep_replays:
-            for f in glob.glob(os.path.join(VERIF, "replay", pid + "-*.json")):
+            for f in glob.glob(os.path.join(REPLAY_DIR, pid + "-*.json")):
                 os.remove(f)
 
     def path(self, *a):
@@ -118,6 +121,16 @@ def run_tlc(run, module, cfg=None, workers=None, dump=False, env=None, timeout=1
     """Runs TLC on spec/<module>.tla in a scratch copy.  Returns dict(stdout, generated,
     distinct, depth, dump=path|None, prints=[lines printed by PrintT], ok)."""
     tag = tag or module
+    ckey = None
+    if FINGERPRINT and not module.startswith("Trace_"):
+        # generator runs do not depend on the code: share them between the runs of one sweep
+        ckey = os.path.join(os.environ.get("VERIF_FP_CACHE", FINGERPRINT + ".cache"), hashlib.sha256(json.dumps(
+            [spec_hash(), module, cfg, dump, sorted((env or {}).items()), extra, simulate, run.seed], default=str).encode()).hexdigest()[:24])
+        if os.path.exists(ckey + ".json"):
+            res = json.load(open(ckey + ".json"))
+            if res.get("dump"):
+                res["dump"] = ckey + ".dump"
+            return res
     wd = run.path("tlc-" + tag)
     shutil.rmtree(wd, ignore_errors=True)
     os.makedirs(wd)
@@ -173,6 +186,13 @@ def run_tlc(run, module, cfg=None, workers=None, dump=False, env=None, timeout=1
         open(keep, "w").write(out)
         tail = "\n".join([l for l in out.splitlines() if not l.startswith(("Semantic", "Linting", "Parsing"))][-60:])
         raise Infra("TLC did not complete cleanly on %s (spec-level failure is a defect of the specification, not of the code):\n%s" % (tag, tail))
+    if ckey:
+        os.makedirs(os.path.dirname(ckey), exist_ok=True)
+        if res.get("dump"):
+            shutil.copy(res["dump"], ckey + ".dump")
+        with open(ckey + ".json.tmp%d" % os.getpid(), "w") as f:
+            json.dump(res, f)
+        os.replace(ckey + ".json.tmp%d" % os.getpid(), ckey + ".json")
     return res
 
 
@@ -332,6 +352,8 @@ def load_known():
 # --------------------------------------------------------------------------
 def finish(run, level, rule, evaluations, distinct_nontrivial, exhaustive, extra_cov=None):
     """Prints KNOWN-FINDING / VIOLATION lines, writes the evidence file, returns the exit code."""
+    if FINGERPRINT:
+        return EXIT_OK
     for k in run.known:
         print("KNOWN-FINDING: property=%s %s" % (run.pid, k))
     rc = EXIT_OK
@@ -362,8 +384,9 @@ def finish(run, level, rule, evaluations, distinct_nontrivial, exhaustive, extra
         "coverage": cov, "assumptions": run.assumptions,
         "wall_s": round(time.time() - run.t0, 2), "violations": len(run.violations),
     }
-    os.makedirs(os.path.join(VERIF, "evidence"), exist_ok=True)
-    with open(os.path.join(VERIF, "evidence", run.pid + ".json"), "w") as f:
+    evdir = os.environ.get("VERIF_EVIDENCE_DIR") or os.path.join(VERIF, "evidence")   # overridden by tools/mutsweep.py only
+    os.makedirs(evdir, exist_ok=True)
+    with open(os.path.join(evdir, run.pid + ".json"), "w") as f:
         json.dump(ev, f, indent=1, sort_keys=True)
         f.write("\n")
     log("%s %s: %s in %.1fs (evaluations=%d)" % (run.pid, run.tier, "OK" if rc == 0 else "VIOLATION", time.time() - run.t0, evaluations))
@@ -371,8 +394,8 @@ def finish(run, level, rule, evaluations, distinct_nontrivial, exhaustive, extra
 
 
 def save_replay(run, name, obj):
-    os.makedirs(os.path.join(VERIF, "replay"), exist_ok=True)
-    p = os.path.join(VERIF, "replay", "%s-%s.json" % (run.pid, name))
+    os.makedirs(REPLAY_DIR, exist_ok=True)
+    p = os.path.join(REPLAY_DIR, "%s-%s.json" % (run.pid, name))
     with open(p, "w") as f:
         json.dump(obj, f, indent=1)
     return p
@@ -395,6 +418,17 @@ def validate_trace(run, module, chunks, pid=None, env=None, par=None, heap_gb=3,
     "ok").  Raises Infra when a chunk was not consumed completely."""
     from concurrent.futures import ThreadPoolExecutor
     chunks = [c for c in chunks if os.path.getsize(c) > 0]
+    if FINGERPRINT:
+        # tools/mutsweep.py: no validation, only an order-independent digest of what the implementation was observed to do
+        acc, n = 0, 0
+        for c in chunks:
+            with open(c, "rb") as f:
+                for line in f:
+                    acc = (acc + int.from_bytes(hashlib.blake2b(line, digest_size=8).digest(), "big")) & ((1 << 64) - 1)
+                    n += 1
+        with open(FINGERPRINT, "a") as f:
+            f.write(json.dumps({"pid": run.pid, "label": label or module, "lines": n, "digest": "%016x" % acc}) + "\n")
+        return []
     par = par or max(1, min(len(chunks), NCPU))
     label = label or module
     old_heap = os.environ.get("VERIF_TLC_HEAP_GB")
